@@ -130,8 +130,14 @@ def run(ctx):
                 "keys": [J.key_jwk(k) for k in keys], "sender": J.key_jwk(sender),
                 "verify_all": verify_all, "expect": expect}
 
+    thin = [0]
+
     def add_case(ser, token, keys, sender, verify_all, obs, logx, m):
         log_, nondet = logx
+        if not ctx.quick and m[0] == "fault":
+            thin[0] += 1
+            if thin[0] % 6:                 # thorough: every 6th fault run is replayed in Coq (all are checked on the implementation)
+                return
         if nondet:
             skipped_nondet[0] += 1
             return
@@ -218,7 +224,7 @@ def run(ctx):
                           "decrypt returned plaintext %r for a token that was never produced (fault %s on %s)" % (
                               obs[1][:24], label, rec["label"]),
                           replay_of(tok.ser, token, keys, snd, verify_all, "reject"))
-        if obs[0] == "ok" and not expect_reject and (obs[1] != rec["plaintext"] or not same_octets):
+        if obs[0] == "ok" and not expect_reject and (obs[1] != rec["plaintext"] or (expect_reject is False and not same_octets)):
             ctx.violation({"kind": "wrong-plaintext", "fault": kind, "ser": tok.ser},
                           "decrypt returned a plaintext different from the encrypted one (%s on %s)" % (label, rec["label"]),
                           replay_of(tok.ser, token, keys, snd, verify_all, rec["plaintext"].hex()))
@@ -231,8 +237,9 @@ def run(ctx):
         add_case(tok.ser, token, keys, snd, verify_all, obs, logx, ("fault", label, rec["label"]))
         return obs
 
-    per = 2 if ctx.quick else None        # bit positions per segment
-    if ctx.quick:
+    per = 2 if ctx.quick else 6           # bit positions per segment (None = every bit, see below)
+    chosen = []
+    if True:
         # a subset that still sees every alg and every enc at least once, in every serialization
         chosen, seen = [], set()
         for r in produced:
@@ -243,21 +250,24 @@ def run(ctx):
             if any(k not in seen for k in key):
                 seen.update(key)
                 chosen.append(r)
+    if ctx.quick:
         targets = chosen
     else:
         targets = [r for r in produced if not r["label"].startswith("multi:")]
+    exhaustive = set(id(r) for r in chosen) if not ctx.quick else set()    # thorough: EVERY bit of every segment on these
 
     prefix_done = set()
     n_target = 0
     for rec in targets:
         n_target += 1
         base = Tok(rec["ser"], rec["token"])
+        per = None if id(rec) in exhaustive else (2 if ctx.quick else 6)
         # -- every bit (sampled in quick) of header / ek / iv / ct / tag / aad
         segs = [("header", base.header), ("iv", base.iv), ("ct", base.ct), ("tag", base.tag)]
         if base.aad is not None:
             segs.append(("aad", base.aad))
         for name, val in segs:
-            for bit in bit_positions(ctx, len(val), per if name != "header" else (4 if ctx.quick else None)):
+            for bit in bit_positions(ctx, len(val), per if (name != "header" or per is None) else (4 if ctx.quick else 12)):
                 t = base.clone()
                 setattr(t, name, flip(val, bit))
                 attack(rec, t, "bit:%s:%d" % (name, bit))
@@ -358,7 +368,10 @@ def run(ctx):
                     t.header = json.dumps(h2, separators=(",", ":")).encode()
                 else:
                     t.recips[0]["header"] = dict(base.recips[0]["header"], epk=e)
-                attack(rec, t, "epk:" + label)
+                # RFC 7748: the most significant bit of an X25519 u-coordinate is masked, so that edit is another
+                # encoding of the SAME point; in the (unauthenticated) per-recipient header it may be accepted
+                same_point = (where == "recipient" and spec["crv"] == "X25519" and label == "x-bit-248")
+                attack(rec, t, "epk:" + label, expect_reject=None if same_point else True)
 
     # -- cross-token splices between tokens of the same alg / enc / key / serialization
     by_key = {}
@@ -435,8 +448,7 @@ def run(ctx):
     # ------------------------------------------------------------------ correspondence
     import time as _t
     t_gen = _t.time() - ctx.t0
-    ev = lib.CoqEval(J.IMPORTS, "jwecase", "jwe_check", "jwe_show", shard=40, max_chars=200000, preamble=J.preamble())
-    res = ev.run(cases)
+    res = J.coq_eval(cases)
     ctx.coverage["timing"] = {"prove+generate_s": round(t_gen, 1), "coq_eval_s": round(_t.time() - ctx.t0 - t_gen, 1),
                               "case_chars": sum(len(c) for c in cases)}
     ctx.coverage["traces_validated_against_impl"] = res["evaluated"]
